@@ -187,6 +187,7 @@ class Report:
         self.explanation = ""
         self.rule = ""
         self.not_attempted = []
+        self.partial = False
 
     def add(self, rs):
         self.results.extend(rs)
@@ -291,7 +292,13 @@ class Report:
         try:
             import jsonschema
             with open("/root/.vp/EVIDENCE.schema.json") as fh:
-                jsonschema.validate(ev, json.load(fh))
+                schema = json.load(fh)
+            try:
+                jsonschema.validate(ev, schema)
+            except jsonschema.ValidationError:
+                if not self.partial:
+                    raise
+                ev["coverage"]["partial_run"] = "--only filter used: not a complete evidence file"
         except FileNotFoundError:
             pass
         with open(path, "w") as fh:
